@@ -1,9 +1,7 @@
 pub trait Sup {}
-#[::entrait::entrait(TrImpl, delegate_by = DelegateTr)]
+#[::entrait::entrait(mockall)]
 /// The trait's documentation.
 /// Second line with `code`.
-trait Tr {
-    /// Method documentation.
-    #[must_use]
+trait Tr<const N: usize, G: Clone> {
     fn m(&self, a: i32) -> i32;
 }
